@@ -281,7 +281,7 @@ MUTANTS = {"no_keep_alive": _mut_no_keep_alive, "prefix_dropped": _mut_prefix_dr
 _Q3 = ["n == 3 and hits == 1 and s1 == %d and mode == %d and s3 in (1, 3, 4, 5, 10)" % (a, m) for a in (3, 4, 5, 10) for m in range(2)]
 _LE2 = ["n <= 2 and mode == %d and hits == %d and s1 == %d" % (m, h, a) for m in range(2) for h in (1, 3) for a in range(12)]
 CONDITIONS = [
-    dict(fn="field_values", cubes=["nf == %d and i1 == %d" % (n, a) for n in (2, 3) for a in range(10)], twins=["reach", "mutant:no_keep_alive@nf == 2 and i1 == 1"],
+    dict(fn="field_values", cubes=["nf == 3 and i1 == %d" % a for a in range(10)] + ["nf == 2 and i1 == %d and mv %s" % (a, m) for a in range(10) for m in ("<= 1", ">= 2")], twins=["reach", "mutant:no_keep_alive@nf == 2 and i1 == 1 and mv <= 1"],
          bounds="templates of 2-3 fields over 10 expressions (a local, 5 producing temporaries: floats, big int, str, list; 3 failing ones incl. KeyError / OSError, whose text is not their first argument) on a collecting tracepoint that also has a configured watch; the tracepoint's variable budget default / 0 / 3 / 6"),
     dict(fn="builtin_logger", cubes=["lit == %d and s1 %s" % (l, r) for l in range(4) for r in ("<= 5", ">= 6")], twins=["reach"],
          bounds="the real PythonPlugin.log_tracepoint (its logging call captured): 12x12 two-segment templates x 4 literal tails containing '%' forms; a field value containing '%s'"),
